@@ -66,6 +66,7 @@ def known_k1(ctx):
 
 def run(ctx):
     games = [(gen_games.FIG55, gen_games.FIG55_META)] + sc.corpus_games() + gen_games.pattern_games(4)
+    games += gen_games.pattern_games3(3)      # initial states whose value is tiny but positive
     games += gen_games.mixed_games(ctx.rng, 250 if ctx.quick else 5000, 3, 9, styles=("stopping", "exact"))
     games += unsolvable_starts(ctx, 60 if ctx.quick else 800)
     recs = sc.run_games(ctx, games, limit=20, tag="c06")
